@@ -70,7 +70,7 @@ import ZygoVerif.Proofs.SimF0cTop
 import ZygoVerif.Proofs.SimFvTop
 import ZygoVerif.Proofs.SimFcTop
 import ZygoVerif.Proofs.SimF2Top
-import ZygoVerif.Proofs.SimF2BrkFor
+import ZygoVerif.Proofs.SimF2BrkTop
 import ZygoVerif.Proofs.SimF2TailTop
 namespace ZygoVerif.C02
 open ZygoVerif.Core ZygoVerif.VM
@@ -1011,14 +1011,14 @@ enclosing loops `Γ`) compiled in place either lands with its value (as `segment
 reference trace, or — when the reference evaluator yields `brk l`/`cont l` — has jumped to the
 `clearMark` resp. the `continue` label of the loop `l` names, the scopes opened inside that loop
 popped, the data stack holding only values above the loop's mark (`JumpedF`). -/
-theorem segment_lemma_Fx (ls : List (Option String)) (es : List Expr) (hne : es ≠ []) (he : FxList ls es = true)
-    (isFn : Nat → Bool) (c : Ctx) (hfn : c.funcname = "") (gs : GS) (r : (List Instr × Bool) × GS)
+theorem segment_lemma_Fx (ls : List (Option String)) (self : String) (es : List Expr) (hne : es ≠ [])
+    (he : FxList ls self es = true) (isFn : Nat → Bool) (c : Ctx) (hfn : FnameOk self c) (gs : GS) (r : (List Instr × Bool) × GS)
     (hc : (compileBegin isFn c es).run gs = .ok r) (Γ : List LCtx) (hls : Γ.map (·.label) = ls) (hg : GsOk Γ gs)
     (m : Nat → Nat) (s : St) (rs : Ref.St) (env : Nat)
     (pre post : List Instr) (hrel : RelF m s rs env) (hgen : GenOk gs r.2 s) (hctx : CtxF Γ c.scopes s rs)
     (hlf : LoopsFinal r.2 s) (hlo : LsOut pre gs.loops.length r.2.loops.length) (hseg : Seg s pre r.1.1 post)
     (n : Nat) : SimX r.1.1 Γ m s rs env (Ref.evalBegin n es env rs) :=
-  segment_Fx_begin ls es hne he isFn c hfn gs r hc Γ hls hg m s rs env pre post hrel hgen hctx hlf hlo hseg n
+  segment_Fx_begin ls self es hne he isFn c hfn gs r hc Γ hls hg m s rs env pre post hrel hgen hctx hlf hlo hseg n
 
 /-- **`CompileCorrect` for F2 with `break`/`continue`**: program texts whose top-level forms are F2
 forms or `for` loops (also under `begin`/`cond`/`let`/`letseq`/`newScope`) that leave a loop —
@@ -1141,17 +1141,19 @@ theorem tail_call_simulates {k : Nat} {self h : String} {args : List Expr} (hh :
   obtain ⟨_, _, _, hA, hU, _, _, _, _, _, _, hV, _⟩ := fclaims (k + 1)
   exact simT_selfcall hV hA hU hh hhead hfa hself isFn c gs r hc hfn hkn hps hact hnargs hrel hseg
 
-/-- **`CompileCorrect` for F2c**: program texts of F2 forms and top-level `defn`s whose bodies call
-the function itself in tail position (under `begin`/`cond`/`let`/`letseq`/`newScope`, any number of
-such calls) — the loops of a language without loops. The jump path and the fallback to the
-ordinary call (the name was re-bound at run time) are both covered. -/
+/-- **`CompileCorrect` for F2c**: program texts of top-level statements whose loops may `break`/`continue`
+(`Fx [] ""`, so every program of Fx) and top-level `defn`s whose bodies (`FzList true`) call the function
+itself in tail position (under `begin`/`cond`/`let`/`letseq`/`newScope`, any number of such calls) and
+contain, before the last form, statements whose `for` loops `break`/`continue` (plain or labelled, their
+own loops). The jump path and the fallback to the ordinary call (the name was re-bound at run time) are
+both covered. -/
 theorem compile_correct_on_F2c : CompileCorrectOn (fun p => FyList p = true) := by
   intro p hp hwf fuel o ho
   cases p with
   | nil => exact compile_correct_on_F0c [] rfl hwf fuel o ho
   | cons e es =>
-    obtain ⟨N, hN⟩ := runText_Fy id VM.initSt Ref.initSt (e :: es) (by simp) hp atRest_initSt rfl
-      (relF_initSt id) fuel
+    obtain ⟨N, hN⟩ := runText_Fy id VM.initSt Ref.initSt (e :: es) (by simp) hp atRest_initSt rfl rfl
+      (fun l hl => by cases hl) (relF_initSt id) fuel
     refine ⟨N, ?_⟩
     have h := hN N (Nat.le_refl _)
     unfold Ref.runProgram at ho
@@ -1171,8 +1173,8 @@ theorem compile_correct_on_F2c : CompileCorrectOn (fun p => FyList p = true) := 
     | cont l rs' => rw [hres] at h; exact h.elim
 
 macro "fy_mem" d:ident : tactic =>
-  `(tactic| simp [$d:ident, FyList, Fy, FzList, Fz, FzArms, FtList, FfList, Ff, FaList, FfArms, FfBinds, okParam, okName, okBinder,
-      okSym, okHead, foBuiltins, hoNames])
+  `(tactic| simp [$d:ident, FyList, Fy, FzList, Fz, FzArms, FxList, Fx, FxArms, lblOk, FtList, FfList, Ff, FaList, FfArms, FfBinds,
+      okParam, okName, okBinder, okSym, okHead, foBuiltins, hoNames])
 
 /-- `(defn loop [i acc] (cond (== i 0) acc (loop (- i 1) (+ acc i)))) (trace (loop 3 0))`: a loop by a self tail
 call -/
@@ -1197,6 +1199,36 @@ def demoTailLet : List Expr :=
       [.cond [(.call (.sym "<") [.sym "m", .int 0], .sym "acc")]
         (.call (.sym "cnt") [.sym "m", .call (.sym "+") [.sym "acc", .int 1]])]],
    .call (.sym "trace") [.call (.sym "cnt") [.int 4, .int 0]]]
+
+/-- `(defn firstbig [xs lim] (def r 0) (for [(def i 0) (< i (len xs)) (set i (+ i 1))] (cond (> (aget xs i) lim)
+(begin (set r (aget xs i)) (break)) nil)) r) (trace (firstbig [1 5 9 7] 4))`: a loop that `break`s inside a function body -/
+def demoFnBrk : List Expr :=
+  [.defn "firstbig" ["xs", "lim"] none [.def_ "r" (.int 0),
+      .for_ none (.def_ "i" (.int 0)) (.call (.sym "<") [.sym "i", .call (.sym "len") [.sym "xs"]])
+        (.set_ "i" (.call (.sym "+") [.sym "i", .int 1]))
+        [.cond [(.call (.sym ">") [.call (.sym "aget") [.sym "xs", .sym "i"], .sym "lim"],
+            .begin_ [.set_ "r" (.call (.sym "aget") [.sym "xs", .sym "i"]), .break_ none])] .nilLit],
+      .sym "r"],
+   .call (.sym "trace") [.call (.sym "firstbig") [.arr [.int 1, .int 5, .int 9, .int 7], .int 4]]]
+
+/-- `(defn sumodd [n acc] (for [(def i 0) (< i n) (set i (+ i 1))] (cond (== (mod i 2) 0) (continue) nil) (set acc (+ acc i)))
+(cond (> n 4) (sumodd (- n 2) acc) acc)) (trace (sumodd 6 0))`: a loop with `continue`, then a self tail call -/
+def demoFnCont : List Expr :=
+  [.defn "sumodd" ["n", "acc"] none [
+      .for_ none (.def_ "i" (.int 0)) (.call (.sym "<") [.sym "i", .sym "n"]) (.set_ "i" (.call (.sym "+") [.sym "i", .int 1]))
+        [.cond [(.call (.sym "==") [.call (.sym "mod") [.sym "i", .int 2], .int 0], .continue_ none)] .nilLit,
+         .set_ "acc" (.call (.sym "+") [.sym "acc", .sym "i"])],
+      .cond [(.call (.sym ">") [.sym "n", .int 4], .call (.sym "sumodd") [.call (.sym "-") [.sym "n", .int 2], .sym "acc"])]
+        (.sym "acc")],
+   .call (.sym "trace") [.call (.sym "sumodd") [.int 6, .int 0]]]
+
+example : FyList demoFnBrk = true := by fy_mem demoFnBrk
+example : FyList demoFnCont = true := by fy_mem demoFnCont
+/-- the programs of Fx (top-level loops with `break`/`continue`) are programs of F2c -/
+example : FyList demoBrk = true ∧ FyList demoOuter = true := by
+  constructor
+  · fy_mem demoBrk
+  · fy_mem demoOuter
 
 theorem demoTail_in : FyList demoTail = true := by fy_mem demoTail
 theorem demoTailRebind_in : FyList demoTailRebind = true := by fy_mem demoTailRebind
@@ -1262,7 +1294,7 @@ def InProvedFragment (p : List Expr) : Prop :=
 i.e. using a `fn`/`defn` inside
 an operand of a call (compiled at run time), with a rest parameter, lazy parameters, a self call in
 a directly compiled non-tail position or in a nested `defn`, `map`/`apply`/`force`/`substitute`, computed call heads,
-`break`/`continue` inside a function body, an empty `newScope`, or (together with calls or
+`break`/`continue` inside the body of a nested function, an empty `newScope`, or (together with calls or
 array literals) a binder that re-uses a builtin name. Held by the 3-way `eval` correspondence on
 every run, not by a theorem. -/
 def CompileCorrectOutsideProved : Prop := CompileCorrectOn (fun p => ¬ InProvedFragment p)
@@ -1285,16 +1317,17 @@ def CompileCorrectOutsideProved : Prop := CompileCorrectOn (fun p => ¬ InProved
    * Fx — F2 plus `break`/`continue` (plain or labelled) of the enclosing `for` loops in top-level code,
      under `begin`/`cond`/`let`/`letseq`/`newScope`/nested loop bodies: a non-landing outcome of the
      simulation (`Sim.SimX`, `Sim.JumpedF`) — `compile_correct_on_F2x`;
-   * F2c — F2 forms and top-level `defn`s whose bodies call the function itself in tail position
-     (`Sim.Fz`: under `begin`/`cond`/`let`/`letseq`/`newScope`): the self-tail-call sequence with its
-     guard, both paths (`Sim.SimT`, `Sim.RetOut`, `Sim.simT_selfcall`) — `compile_correct_on_F2c`;
+   * F2c — Fx statements and top-level `defn`s whose bodies call the function itself in tail position
+     (`Sim.Fz`: under `begin`/`cond`/`let`/`letseq`/`newScope`) and whose loops `break`/`continue`: the
+     self-tail-call sequence with its guard, both paths (`Sim.SimT`, `Sim.RetOut`, `Sim.simT_selfcall`);
+     loops with exits inside function bodies (`Sim.simF_stmt`) — `compile_correct_on_F2c`;
    * for the effect-free sub-fragment F0c with explicit fuel on both sides — `compile_correct_F0c`;
 2. the full `CompileCorrect` follows from its restriction to the remaining programs
    (`CompileCorrectOutsideProved`, the precise unproved remainder);
 3. the layout half for `begin`/`cond`/`and`/`or` as before (and `gen_for_layout` for loops).
 
 MISSING (held by the `eval` correspondence only): `CompileCorrectOutsideProved` — `break`/`continue`
-inside function bodies (the loop contexts of `Sim.CtxF` are stated for top-level code), the rest of F2
+inside the bodies of nested functions (`fn`, `defn` not at top level), the rest of F2
 (`fn`/`defn` inside operands, varargs), self tail calls in nested `defn`s and together with
 `break`/`continue`, F3 (`map`/`apply`, lazy parameters). -/
 theorem compile_correct_partial :
